@@ -1,5 +1,6 @@
 import Emboss.Model.Bounds
 import Emboss.Model.CppArith
+import Emboss.Model.ExprType
 import Driver.Util
 open Emboss.Bounds Driver
 
@@ -14,12 +15,17 @@ Line protocol of `model_c05` (one op per line, one answer per line):
   CPPTYPE <lo> <hi>      `_cpp_integer_type_for_range`
   TYPES <expr>           IntermediateT/ResultT of every run-time function node, preorder
   CPPEVAL <expr> ; <id>=<int> …        fixed-width evaluation vs the model's own annotations
+  SIG <atype>…           template arguments `IntermediateT ResultT ArgT…` of one generated call,
+                         from the annotations of result :: operands (`raise` = generator raises)
+  SIGS <expr>            `<Op>:<IntermediateT>,<ResultT>,<ArgT>…` of every emitted call, preorder
+  TYOF <expr>            the typing discipline `tyOf`: int | bool | enum | ill-typed
 
 atype:  i:<min>:<max>:<modulus>:<mv>  (inf, -inf)  |  b:T b:F b:U  |  e:<int> e:U
 cv:     n (None) | i<int> | bT | bF | e<int> | x (raised)
 expr:   (c n) (t) (f) (ec n) (u id size) (s id size) (d id size) (ss id) (bl id) (el id)
         (g id <atype>) (+ a b) (- a b) (* a b) (== a b) (!= a b) (< a b) (<= a b) (> a b)
-        (>= a b) (&& a b) (|| a b) (? c t f) (max a …) (ub a) (lb a) (cref a) (vref a);  size ? = unknown
+        (>= a b) (&& a b) (|| a b) (? c t f) (max a …) (ub a) (lb a) (cref a) (vref a)
+        (present a c) = $present(field a) whose existence condition is c;  size ? = unknown
 atree:  (F <atype> child…) function node, (N <atype>) anything else
 -/
 
@@ -156,6 +162,7 @@ partial def exprOf : SExp → Option Expr
   | .list [.atom "lb", a] => do pure (.lower (← exprOf a))
   | .list [.atom "cref", a] => do pure (.cref (← exprOf a))
   | .list [.atom "vref", a] => do pure (.vref (← exprOf a))
+  | .list [.atom "present", a, c] => do pure (.present (← exprOf a) (← exprOf c))
   | .list [.atom op, a, b] => do
     let op ← binOpOf op
     pure (.bin op (← exprOf a) (← exprOf b))
@@ -203,6 +210,16 @@ def showCppRes : CRes → String
   | .notype => "notype"
   | .staticAssert => "static-assert"
   | .stuck => "stuck"
+
+def showTName : TName → String
+  | .int .i32 => "i32" | .int .u32 => "u32" | .int .i64 => "i64" | .int .u64 => "u64"
+  | .noInt => "none" | .bool => "bool" | .enum => "enum"
+
+def showOpKind : OpKind → String
+  | .bin .add => "Sum" | .bin .sub => "Difference" | .bin .mul => "Product"
+  | .bin .eq => "Equal" | .bin .ne => "NotEqual" | .bin .lt => "LessThan"
+  | .bin .le => "LessThanOrEqual" | .bin .gt => "GreaterThan" | .bin .ge => "GreaterThanOrEqual"
+  | .bin .and => "And" | .bin .or => "Or" | .choice => "Choice" | .max => "Maximum"
 
 def handle (line : String) : String :=
   let (op, rest) :=
@@ -252,6 +269,27 @@ def handle (line : String) : String :=
       match opTypes e with
       | some l => "types " ++ " ".intercalate (l.map fun (a, b) => showCType a ++ "/" ++ showCType b)
       | none => "crash"
+    | none => "bad-op"
+  | "SIG" =>
+    match ((rest.splitOn " ").filter (· ≠ "")).mapM parseAType with
+    | some (t :: ts) =>
+      match nodeSig (t :: ts) with
+      | some (it, ns) => " ".intercalate (showTName it :: ns.map showTName)
+      | none => "raise"
+    | _ => "bad-op"
+  | "SIGS" =>
+    match (parseTree rest).bind exprOf with
+    | some e =>
+      match opSigs e with
+      | some l => "sigs " ++ " ".intercalate (l.map fun (k, it, ns) =>
+          showOpKind k ++ ":" ++ ",".intercalate (showTName it :: ns.map showTName))
+      | none => "raise"
+    | none => "bad-op"
+  | "TYOF" =>
+    match (parseTree rest).bind exprOf with
+    | some e =>
+      match tyOf e with
+      | some .int => "int" | some .bool => "bool" | some .enum => "enum" | none => "ill-typed"
     | none => "bad-op"
   | "CPPEVAL" =>
     match rest.splitOn ";" with
